@@ -10,7 +10,7 @@ PROPERTY = 'C03'
 LEVEL = 'fault_enumeration'
 RULE = ('A bundle (generated payload, CRC types incl. none so that CRCs cannot mask, two extension blocks and a hop-count '
         'block) gets a Block Integrity Block over {payload, an extension block, both} either (A) from a real source '
-        'agent with a COSE_Mac0 policy (HMAC-256/384/512) through its real transmit chain, (S) from a real source agent with '
+        'agent with a COSE_Mac0 policy (HMAC-256/384/512; one association for all targets, or two associations with the extension block first so that the targets of the BIB are not in ascending order) through its real transmit chain, (S) from a real source agent with '
         'a COSE_Sign1 policy (ES256/ES384, certificate in an x5chain, receiver holding the issuing CA / another CA / none; signer certificate naming the source, no node at all, or another node), or (B) from the independent '
         'reference source with AAD scopes the repository source never emits ({0:1,-1:1,-2:1}, extra blocks with '
         'METADATA and/or BTSD flags, additional-protected parameter present or absent, CRC on the security block).  The '
@@ -77,6 +77,8 @@ def cases(draw):
             'plen': draw(st.sampled_from([0, 1, 5, 24, 300])), 'seed': draw(st.integers(0, 99)),
             'pcrc': draw(st.sampled_from([0, 0, 1, 2])), 'bcrc': draw(st.sampled_from([0, 0, 1, 2])),
             'sec_crc': draw(st.sampled_from([0, 1])), 'alterations': alts,
+            # direction A with two targets: the source reaches them through two associations, the extension block's first
+            'split': draw(st.booleans()),
             # direction S: whose certificate the signer holds - its own, one without any bundle EID, one naming another
             # node (all issued by the CA the receiver trusts): the last two are the wrong key for this security source
             'identity': draw(st.sampled_from(['own', 'own', 'own', 'none', 'other'])),
@@ -103,6 +105,9 @@ def enumerate_cases(tier):
     for direction, targets in itertools.product(('A', 'B'), (['payload'], ['payload', 'ext'])):
         yield {'direction': direction, 'alg': 5, 'targets': targets, 'scope': 0, 'addl': False, 'plen': 5, 'seed': 1, 'pcrc': 0,
                'bcrc': 0, 'sec_crc': 0, 'alterations': catalogue, 'kid': ''}
+    for alg, pcrc in itertools.product((5, 7), (0, 1)):
+        yield {'direction': 'A', 'alg': alg, 'targets': ['payload', 'ext'], 'scope': 0, 'addl': False, 'plen': 5, 'seed': 1, 'pcrc': pcrc,
+               'bcrc': 0, 'sec_crc': 0, 'alterations': catalogue, 'split': True}
     for alg, identity in itertools.product((-7, -35), ('none', 'other')):
         yield {'direction': 'S', 'alg': alg, 'targets': ['payload'], 'scope': 0, 'addl': False, 'plen': 5, 'seed': 1, 'pcrc': 0,
                'bcrc': 0, 'sec_crc': 0, 'alterations': [], 'identity': identity}
@@ -188,7 +193,14 @@ def sign(case, out):
         else:
             bu.give_key(src, kid, case['alg'], 'mac')
         types = sorted({1 if t == 'payload' else 192 for t in case['targets']})
-        bu.add_policy(src, 'bib', kid, types)
+        if case.get('split') and len(types) > 1:
+            # two associations of the source match the bundle, the one for the extension block first: the targets of its
+            # BIB are then not in ascending order of block numbers (result list i still belongs to target i)
+            for tcode in reversed(types):
+                bu.add_policy(src, 'bib', kid, [tcode])
+            out.label('source-two-associations')
+        else:
+            bu.add_policy(src, 'bib', kid, types)
         err = src.send(BundleContainer(bpconv.to_repo(bundle)))
         sent = src.sent()
         if err is not None or len(sent) != 1:
